@@ -4115,6 +4115,9 @@ int32_t getExplicitExtensions(psPool_t *pool, const unsigned char **pp,
 #  ifdef USE_FULL_CERT_PARSE
     psSize_t subExtLen;
     const unsigned char *subSave;
+#   ifdef USE_CRL
+    const unsigned char *dpEnd;
+#   endif
     int32_t nc = 0;
 #   ifdef USE_CERT_POLICY_EXTENSIONS
     x509PolicyInformation_t *pPolicy;
@@ -4602,8 +4605,11 @@ KNOWN_EXT:
                     return PS_PARSE_FAIL;
                 }
                 fullExtLen -= len + (p - save);
-                /* All memebers are optional */
-                if (*p == (ASN_CONTEXT_SPECIFIC | ASN_CONSTRUCTED | 0))
+                /* All memebers are optional: look for them inside this
+                   DistributionPoint only */
+                dpEnd = p + len;
+                if (p < dpEnd &&
+                    *p == (ASN_CONTEXT_SPECIFIC | ASN_CONSTRUCTED | 0))
                 {
                     /* DistributionPointName */
                     p++;
@@ -4648,7 +4654,8 @@ KNOWN_EXT:
                         return PS_PARSE_FAIL;
                     }
                 }
-                if (*p == (ASN_CONTEXT_SPECIFIC | ASN_CONSTRUCTED | 1))
+                if (p < dpEnd &&
+                    *p == (ASN_CONTEXT_SPECIFIC | ASN_CONSTRUCTED | 1))
                 {
                     p++;
                     /* ReasonFlags not parsed */
@@ -4660,7 +4667,8 @@ KNOWN_EXT:
                     }
                     p += len;
                 }
-                if (*p == (ASN_CONTEXT_SPECIFIC | ASN_CONSTRUCTED | 2))
+                if (p < dpEnd &&
+                    *p == (ASN_CONTEXT_SPECIFIC | ASN_CONSTRUCTED | 2))
                 {
                     p++;
                     /* General Names not parsed */
